@@ -13,6 +13,7 @@ import Driver.Flags
 import Driver.Threads
 import Driver.Diff
 import Driver.Codegen
+import Driver.Location
 open Lean Driver
 
 def dispatch (req : Json) : R Json := do
@@ -27,6 +28,7 @@ def dispatch (req : Json) : R Json := do
   | "threads" => Driver.Threads.handle req
   | "diff" => Driver.Diff.handle req
   | "codegen" => Driver.Codegen.handle req
+  | "locate" => Driver.Location.handle req
   | "guard" => Driver.Errors.handleGuard req
   | "decorate" => Driver.Errors.handleDecorate req
   | _ => throw "bad-op"
